@@ -662,7 +662,7 @@ def persistedLine (wires table plain impl : List String) : String :=
             | none => some "unevaluable-operation-text"
             | some sent =>
               if stripInsignificant e.2 == stripInsignificant sent then none
-              else if text.contains 92 && (dropContinuations text).contains 92 then some "backslash-in-string"
+              else if (dropContinuations text).contains 92 then some "backslash-in-string"
               else some "other"
           | _, _ => some "missing"
         match differs with
